@@ -15,6 +15,7 @@ def max_queryer_recursion : Nat := 32
 def max_resolution_attempts : Nat := 3
 def net_call_funcs : List String := ["dialUDP", "exchange"]
 def shape_cached_descent_spends_depth : Bool := true
+def shape_chase_checks_deadline : Bool := true
 def shape_checkloop_before_ns_lookup : Bool := true
 def shape_delegation_spends_depth : Bool := true
 def shape_dialudp_only_from_exchange : Bool := true
